@@ -151,6 +151,17 @@ def run(tier):
                 s = s[:p] + s[p:][::-1][:rnd.randint(1, 8)] + s[p:]
         texts.append(s)
         n_rand += 1
+    # wide programs: N root variables with a function (parameter + local) defined among them - the
+    # analyses keep per-function tables indexed by local number, sized in 64-bit words
+    n_wide = 0
+    wide_ns = list(range(60, 70)) + list(range(124, 132)) if q else list(range(1, 200))
+    for n in wide_ns:
+        for pos in ([n // 2] if q else [1, n // 2, n - 1]):
+            pos = max(0, min(n, pos))
+            src = "".join("make v%d get %d\n" % (i, i) for i in range(pos)) + "do f(p) start make q get p return q end\n" \
+                + "".join("make v%d get %d\n" % (i, i) for i in range(pos, n)) + "shout(f(1))\n"
+            texts.append(src)
+            n_wide += 1
     res = front(texts)
     counts = collections.Counter()
     token_agree = token_differ = 0
@@ -178,6 +189,8 @@ def run(tier):
         for (t, det) in items[:40]:
             if len(t) <= 12:
                 key, piece = minimal_key(t, kind)
+            elif t.startswith("make v0 get 0") or t.startswith("do f(p)"):
+                key, piece = "wide-program", t
             else:
                 key, piece = "long:" + le.core_key(t), t
             k = "%s:%s" % (kind, key)
@@ -198,7 +211,7 @@ def run(tier):
             if r.get("st") not in ("parse_error", "static_error"):
                 v.finding("gating:" + class_string(t[:12]), "a text with an error-level diagnostic was executed: %r" % t, {"text": t})
     v.coverage = {"states": states, "transitions": transitions, "traces_validated_against_impl": counts["ok"],
-                  "texts_enumerated_by_tlc": n_sweep, "token_mutations_of_generated_programs": n_mut, "random_mutations_of_corpus": n_rand,
+                  "texts_enumerated_by_tlc": n_sweep, "token_mutations_of_generated_programs": n_mut, "random_mutations_of_corpus": n_rand, "wide_programs": n_wide,
                   "results": dict(counts), "clean_texts_with_same_tokens_as_reference": token_agree, "clean_texts_with_other_tokens_(information_only)": token_differ,
                   "gating_texts_with_errors_checked": gated, "evaluations": len(texts), "distinct_nontrivial": len(set(texts)),
                   "rule": "every text over the alphabet up to the bound (TLC), plus token mutations and byte mutations; all are non-trivial (every text must survive); distinct texts counted",
